@@ -1,8 +1,8 @@
 use std::collections::BTreeSet;
 
 use crate::{
-    AnyStoredVec, Bytes, ChangeCursor, ChangeData, ReadWriteBaseVec, Result, SIZE_OF_U64, VecIndex,
-    VecValue,
+    AnyStoredVec, Bytes, ChangeCursor, ChangeData, Error, ReadWriteBaseVec, Result, SIZE_OF_U64,
+    VecIndex, VecValue,
 };
 
 use super::{super::RawStrategy, ReadWriteRawVec, change::RawChangeData};
@@ -92,6 +92,15 @@ where
             modifications,
             prev_holes,
         } = Self::parse_raw_change_data(bytes)?;
+
+        // Everything below `truncated_start` must already be part of the vector;
+        // a larger value can only come from a damaged record.
+        if truncated_start > self.stored_len() {
+            return Err(Error::WrongLength {
+                received: truncated_start,
+                expected: self.stored_len(),
+            });
+        }
 
         // Only needed when the rolled-back flush appended (prev_stored_len <
         // current): any holes/updated in the now-gone range must be dropped.
